@@ -5,6 +5,10 @@ verus! {
 /// (the fallback then emits an Insert that carries the start of the deleted block)
 pub open spec fn alg_lvl(deadline: Option<Instant>) -> int { if deadline is None { 2 } else { 1 } }
 
+/// per algorithm: LCS reports exact carried indices on its give-up path too (it deletes the rest, advances, then inserts);
+/// Myers (and Patience, which runs Myers) only when no deadline can cut the search short
+pub open spec fn lvl_of(alg: Algorithm, deadline: Option<Instant>) -> int { if alg == Algorithm::Lcs { 2 } else { alg_lvl(deadline) } }
+
 /// the size bound under which machine arithmetic is checked (assumption 6 of DESIGN.md section 6)
 pub open spec fn size_ok(or: Range<usize>, nr: Range<usize>) -> bool {
     (or.end - or.start) + (nr.end - nr.start) + 4 <= isize::MAX
